@@ -34,3 +34,21 @@ pub fn hashmap_get_str<'a, V>(m: &'a HashMap<String, V>, k: &str) -> (r: Option<
 {
     m.get(k)
 }
+
+// `m.get(k)` where the value's atomics are then modified through the shared reference (R4): modelled as get_mut.
+#[verifier::external_body]
+pub fn hashmap_get_mut_str<'a, V>(m: &'a mut HashMap<String, V>, k: &str) -> (r: Option<&'a mut V>)
+    ensures match r {
+        Some(v) => old(m)@.contains_key(string_of(k@)) && *v == old(m)@[string_of(k@)] && final(m)@ == old(m)@.insert(string_of(k@), *final(v)),
+        None => !old(m)@.contains_key(string_of(k@)) && final(m)@ == old(m)@ }
+{
+    m.get_mut(k)
+}
+#[verifier::external_body]
+pub fn hashmap_get_mut_usize<'a, V>(m: &'a mut HashMap<usize, V>, k: &usize) -> (r: Option<&'a mut V>)
+    ensures match r {
+        Some(v) => old(m)@.contains_key(*k) && *v == old(m)@[*k] && final(m)@ == old(m)@.insert(*k, *final(v)),
+        None => !old(m)@.contains_key(*k) && final(m)@ == old(m)@ }
+{
+    m.get_mut(k)
+}
